@@ -358,17 +358,25 @@ def run_cli(ctx, rng, i):
                              moves=rng.choice([1, 2, 3]) if system == 'gap'
                              else 0, sid=j + 1))
     pos = rng.random() < 0.4
-    cli_case(ctx, bank, system, pos)
+    sfmt = rng.choice(['export', 'export', 'tigerxml', 'discobrackets']
+                      + (['brackets'] if system != 'gap' else []))
+    cli_case(ctx, bank, system, pos, sfmt)
 
 
-def cli_case(ctx, bank, system, pos):
-    src = common.write(ctx.path('.export'), codec.export_encode(bank))
+def cli_case(ctx, bank, system, pos, sfmt='export'):
+    text = {'export': lambda: codec.export_encode(bank),
+            'tigerxml': lambda: codec.tigerxml_encode(bank),
+            'discobrackets': lambda: codec.discobrackets_encode(bank),
+            'brackets': lambda: codec.brackets_encode(bank)}[sfmt]()
+    src = common.write(ctx.path('.' + sfmt), text)
     dest = ctx.path('.trans')
     args = ['transitions', src, dest, system, '--transform',
-            'negra_mark_heads', 'binarize', '--src-format', 'export']
+            'negra_mark_heads', 'binarize', '--src-format', sfmt,
+            '--src-opts', 'quiet']
     if pos:
         args += ['--dest-opts', 'pos']
-    case = {'kind': 'cli', 'bank': bank, 'system': system, 'pos': pos}
+    case = {'kind': 'cli', 'bank': bank, 'system': system, 'pos': pos,
+            'sfmt': sfmt}
     rc, out, err = common.cli(args)
     ctx.hook('cli.transitions')
     if rc != 0:
@@ -401,6 +409,7 @@ def cli_case(ctx, bank, system, pos):
                                                         model.show(m, '')))
     ctx.case(['cli', system, pos, [s['root'] for s in bank]])
     ctx.stratum('cli ' + system)
+    ctx.stratum('cli source ' + sfmt)
 
 
 def splice_at(m):
@@ -555,6 +564,7 @@ def replay(ctx, case):
         else:
             run_system(ctx, case['system'], case['spec'], rng, case)
     elif case['kind'] == 'cli':
-        cli_case(ctx, case['bank'], case['system'], case['pos'])
+        cli_case(ctx, case['bank'], case['system'], case['pos'],
+                 case.get('sfmt', 'export'))
     else:
         writer_case(ctx, case, rng)
